@@ -125,6 +125,11 @@ def gen_case(streams, tier):
         n = 1 if api == "submit" else w.choice(SIZES)
         base = (oi + 1) * 1000
         cols = [[base + 10 * i + j for i in range(n)] for j in range(npos)]
+        if fn in ("f1_tag", "f2_kw", "f3_kw") and w.random() < 0.15:
+            # equal-but-distinguishable arguments, repeated within one call (0 == 0.0 == -0.0 == False, 1 == 1.0
+            # == True): every item is its own task, whatever compares equal to it
+            look = [0, 0.0, -0.0, False, 1, 1.0, True, 2, 2.0]
+            cols = [[w.choice(look) for _ in range(n)] for _ in range(npos)]
         if fn == "f2_die" and n:
             cols[0][w.randrange(n)] = 13
         if "uneven" in fault_kinds and api != "submit" and npos > 1 and n > 1 and f.random() < 0.5:
@@ -164,6 +169,8 @@ def same(a, b):
         return False
     if isinstance(a, (list, tuple)):
         return len(a) == len(b) and all(same(x, y) for x, y in zip(a, b))
+    if isinstance(a, float):
+        return repr(a) == repr(b)  # 0.0 and -0.0 are different results
     return a == b
 
 
